@@ -130,6 +130,8 @@ pub struct ScriptedWriter<'a> {
     pub calls: usize,
     max_calls: usize,
     pub flushes: usize,
+    /// accept one byte per call once the script is exhausted
+    pub one_byte: bool,
 }
 
 impl<'a> ScriptedWriter<'a> {
@@ -143,6 +145,7 @@ impl<'a> ScriptedWriter<'a> {
             calls: 0,
             max_calls: expected_len * 2 + steps.len() + 64,
             flushes: 0,
+            one_byte: false,
         }
     }
     fn do_write(&mut self, data: &[u8]) -> Result<Option<usize>, io::Error> {
@@ -171,6 +174,8 @@ impl<'a> ScriptedWriter<'a> {
         let mut n = data.len();
         if let Some(WStep::Accept(k)) = step {
             n = n.min(k.max(1));
+        } else if self.one_byte {
+            n = n.min(1);
         }
         if let Some((fp, _)) = self.fault {
             n = n.min(fp - self.out.len());
